@@ -828,6 +828,24 @@ impl Interp {
                     },
                 },
             },
+            Op::Alias { kind, v, amt } => {
+                let v = self.v_of(*v);
+                let alias = format!("{}0", self.w.vamms[v]);
+                let victim = self.w.traders[crate::world::ALIAS_VICTIM].clone();
+                let a = u(d / 100 + jitter(*amt, d));
+                let msg = match kind % 6 {
+                    0 => eng::ExecuteMsg::DepositMargin { vamm: alias, amount: a },
+                    1 => eng::ExecuteMsg::WithdrawMargin { vamm: alias, amount: a },
+                    2 => eng::ExecuteMsg::ClosePosition { vamm: alias, quote_asset_limit: u(0) },
+                    3 => eng::ExecuteMsg::OpenPosition { vamm: alias, side: Side::Sell, margin_amount: a, leverage: u(d), base_asset_limit: u(0) },
+                    4 => eng::ExecuteMsg::Liquidate { vamm: alias, trader: self.w.traders[crate::world::ALIAS_ATTACKER].clone(), quote_asset_limit: u(0) },
+                    _ => eng::ExecuteMsg::Liquidate { vamm: self.w.vamms[v].to_string(), trader: victim, quote_asset_limit: u(0) },
+                };
+                Act::EngineAdmin {
+                    sender: self.w.traders[crate::world::ALIAS_ATTACKER].clone(),
+                    msg,
+                }
+            }
             Op::Shutdown => Act::FundAdmin {
                 sender: self.w.owner.clone(),
                 msg: fund::ExecuteMsg::ShutdownVamms {},
